@@ -55,6 +55,7 @@ func __emptymap[K comparable, V any]() gmap[K, V] { return nil }
 func __idx() int { return 0 }
 func __iter() int { return 0 }
 func __visset() any { return nil }
+func __json(x any) []byte { return nil }
 func __ranged[T any](zero T) T { return zero }
 func __eq[T any](a, b T) bool { return true }
 func __called(name string) bool { return true }
